@@ -755,6 +755,21 @@ class PileupIndexMemory(PileupIndex):
         return bnp.compute(reads.get_pileup()[peaks])
 
 
+class PileupIndexOtherGenome(PileupIndex):
+    """reads.get_pileup()[peaks] where the in-memory peaks went through a SECOND Genome object that has the same names
+    and sizes in the opposite order: the two contig orders are incompatible - the library may refuse (it compares the
+    genome contexts) but must not pair the per-contig walks by position"""
+    name = "pileup_index_other_genome_order"
+
+    def run(self, env):
+        bnp = core.bnp()
+        reads = env.a.genomic(env.G)
+        sizes = {n: env.g.sizes[n] for n in reversed(env.g.order)}
+        g2 = bnp.Genome.from_dict(sizes)
+        peaks = g2.get_intervals(make_table("interval", env.b.d.entries))
+        return bnp.compute(reads.get_pileup()[peaks])
+
+
 class TrackData(Consumer):
     name = "track_data"          # bnp.compute(track.get_data())
     kind = "bedgraph"
@@ -935,6 +950,6 @@ class EarlyBreak(Consumer):
         return None
 
 
-CONSUMERS = [ComputeGI(), ComputeTuple(), ComputeDict(), ForIter(), MaskSum(), PileupData(), TwoTuple(), PileupIndex(), PileupIndexMemory(),
+CONSUMERS = [ComputeGI(), ComputeTuple(), ComputeDict(), ForIter(), MaskSum(), PileupData(), TwoTuple(), PileupIndex(), PileupIndexMemory(), PileupIndexOtherGenome(),
              TrackData(), TrackSum(), MsExhaust(), Forbes(), Jaccard(), MsWrite(), LeftJoin(), CallerZip(), EarlyBreak()]
 BY_NAME = {c.name: c for c in CONSUMERS}
